@@ -88,3 +88,49 @@ func VerifHarness_C07_reorg() {
 	}
 	verifrt.Reach("C07.reorg.done")
 }
+
+// VerifHarness_C07_resubmit: the client feeds a transaction back through the node (Node.HandleTx /
+// SendTx mark it safe: it is the client's own) although the node has reported it unsafe before - it
+// was double spent, and then confirmed or not.  The notification this produces must respect the
+// flag invariants like any other.
+func VerifHarness_C07_resubmit() {
+	ctx := context.Background()
+	k, err := vkNewNode(ctx, nil)
+	verifrt.Assert(err == nil, "C07.kit.node-loads")
+	node, rec := k.node, k.rec
+	node.state.SetInSync()
+	t := vkTx(70, []int{0}, true)
+	rival := vkTx(71, []int{0, 1}, true)
+	tid := *t.TxHash()
+	perr := node.processUnconfirmedTx(ctx, handlers.TxData{Msg: t, Trusted: true, ConfirmedHeight: -1})
+	verifrt.Assert(perr == nil, "C07.event.no-error")
+	perr = node.processUnconfirmedTx(ctx, handlers.TxData{Msg: rival, Trusted: true, ConfirmedHeight: -1})
+	verifrt.Assert(perr == nil, "C07.event.no-error")
+	switch verifrt.Choose("then", 3) {
+	case 1: // t confirms (the rival is cancelled)
+		verifrt.Assert(node.ProcessBlock(ctx, vkBlock(*node.blocks.LastHash(), 1, []*wire.MsgTx{t})) == nil, "C07.event.no-error")
+	case 2: // the rival confirms (t is cancelled)
+		verifrt.Assert(node.ProcessBlock(ctx, vkBlock(*node.blocks.LastHash(), 1, []*wire.MsgTx{rival})) == nil, "C07.event.no-error")
+	}
+	perr = node.processUnconfirmedTx(ctx, handlers.TxData{Msg: t, Trusted: true, Safe: true, ConfirmedHeight: -1})
+	verifrt.Assert(perr == nil, "C07.event.no-error")
+	bad := false
+	for _, n := range rec.events {
+		if n.txid != tid || (n.kind != "tx" && n.kind != "update") {
+			continue
+		}
+		verifrt.Sig("resubmit", "both")
+		verifrt.Assert(!(n.state.Safe && n.state.UnSafe), "C07.state.never-safe-and-unsafe")
+		verifrt.Sig("resubmit", "cancelled")
+		verifrt.Assert(!n.state.Cancelled || n.state.UnSafe, "C07.state.cancelled-implies-unsafe")
+		if bad {
+			verifrt.Sig("resubmit", "safe-after-unsafe")
+			verifrt.Assert(!n.state.Safe, "C07.state.no-safe-after-unsafe")
+		}
+		if n.state.UnSafe || n.state.Cancelled {
+			bad = true
+		}
+	}
+	verifrt.Assert(bad, "C07.resubmit.t-was-reported-unsafe")
+	verifrt.Reach("C07.resubmit.done")
+}
